@@ -34,9 +34,9 @@ def select(tier):
     if tier == "thorough":
         for f in fs:
             jobs.append((f, []))
-        for f in r.sample(fs, 900):
+        for f in fs:
             jobs.append((f, ["--style", "jcl"]))
-        for f in r.sample(fs, 300):
+        for f in r.sample(fs, 600):
             jobs.append((f, ["--style", "indent_only"]))
     else:
         pick = r.sample(inputs, 170) + r.sample(fixed, 40) + r.sample(rest, 30) + r.sample(ex, min(len(ex), 12))
